@@ -1731,6 +1731,22 @@ class InterpStmts:
         # 6. postconditions
         env_post["result"] = result
         post = [self.eval_spec(cl, s2, env_post, callee=f, old_state=pre, old_env=env_old) for cl in (c.get("ensures") or [])]
+        # 6b. ghost exports: locals of the callee named in its contract's `ghost_exports` exist at its return and satisfy its (verified)
+        #     `ghost_ensures`; the caller gets them as fresh ghost values called <callee>__<local>, constrained by exactly those clauses
+        gx = c.get("ghost_exports") or []
+        if gx and not st.pure:
+            env_g = dict(env_post)
+            for gname in gx:
+                gk = parse_kind((c.get("vars") or {})[gname])
+                gv = SV(gk, tfresh(gk, "gx_" + gname))
+                from .verify import valid_tree
+                w = z3.simplify(valid_tree(gk, gv.tree, s2.nref))
+                if not z3.is_true(w):
+                    s2.pc.append(w)
+                env_g[gname] = gv
+                s2.ghost = dict(s2.ghost)
+                s2.ghost["%s__%s" % (f.qualname.replace(".", "_"), gname)] = gv
+            post = post + [self.eval_spec(cl, s2, env_g, callee=f, old_state=pre, old_env=env_old) for cl in (c.get("ghost_ensures") or [])]
         if st.pure:
             # a contract call inside a specification / model context: the caller only keeps the value, so the callee's
             # postcondition is recorded as a definitional fact about the fresh result (guarded by its precondition)
